@@ -675,8 +675,17 @@ pub fn c09_one(b: &Built, pats: &[Vec<u8>], origin: &Value, deep: bool, acc: &mu
     for (ti, tail) in tails.iter().enumerate() {
         let mut src = bytes.clone();
         src.extend_from_slice(tail);
-        let (r, off, rest) = Auto::deserialize(b.cfg.variant, &src);
+        let rt = std::panic::catch_unwind(std::panic::AssertUnwindSafe(|| Auto::deserialize(b.cfg.variant, &src)));
         acc.traces += 1;
+        let (r, off, rest) = match rt {
+            Ok(x) => x,
+            Err(_) => {
+                let msg = util::take_last_panic().unwrap_or_default();
+                acc.violate(prop, "roundtrip", format!("deserialize_unchecked panicked on the bytes produced by serialize: {msg}"),
+                    e2::with(origin.clone(), "tail", json!(hex(tail))));
+                return;
+            }
+        };
         if off != bytes.len() || rest != tail.len() {
             acc.violate(prop, "roundtrip",
                 format!("deserialize consumed {off} of {} bytes and returned a remainder of {rest} bytes (tail of {} given)", bytes.len(), tail.len()),
